@@ -35,7 +35,7 @@ func (c01) Timeout(string) time.Duration { return 15 * time.Minute }
 func (c01) Parallel(string) int          { return 16 }
 
 func (c01) Cases(tier string, seed uint64) []fw.Case {
-	n, steps := 48, 30
+	n, steps := 96, 30
 	if tier == "thorough" {
 		n, steps = 640, 120
 	}
